@@ -588,15 +588,44 @@ def fix_exts_table(F, rep, rule="C03.4"):
         rep.holds(rule, "fix_exts", "fix_exts replaces every node's extensions by get_valid_exts of that node with the caller's validity set (masks: none, all, {0,2}, {1}, {})")
 
 
-CENS_STATES = ("none", "ext-valid", "ext-censored", "ext-elsewhere")
+CENS_STATES = ("none", "ext-valid", "ext-censored", "ext-elsewhere", "ext-self")
 
 
 class CensorOracles(ActiveItemOracles):
     """remove_censored_exts[_sharded]: item states — no extension / target valid / target seen but censored / target not in this shard"""
 
-    def __init__(self, script, active, background, sharded):
+    def __init__(self, script, active, background, sharded, stranded=False):
         ActiveItemOracles.__init__(self, script, active, background, CENS_STATES)
         self.sharded = sharded
+        self.stranded = stranded
+
+    def form_of(self, key):
+        t = tags_of(key)
+        if "canon" in t:
+            return "canon"
+        return "rc" if "rcform" in t else "plain"
+
+    def present(self, which, item, form):
+        """is the key (the neighbour in the given form: as spelled / reverse-complemented / canonical) an entry of the table?  Tables hold
+        canonical k-mers when unstranded and the k-mers as observed when stranded."""
+        st = self.state(*item)
+        x_in = (st in ("ext-valid", "ext-self")) if which == "valid" else (st in ("ext-valid", "ext-censored", "ext-self"))
+        if form != "plain" or not self.stranded:
+            flip = self.choose("canonical-form-of-%s-%s-is-its-rc" % item, (False, True)) if item == self.active else False
+        if not self.stranded:
+            if form == "canon":
+                return x_in
+            return x_in and (flip if form == "rc" else not flip)
+        # stranded: the reverse complement is a different k-mer with its own fate
+        def rc_in():
+            if item != self.active:
+                return False
+            return self.choose("rc-of-%s-%s-in-%s-table" % (item + (which,)), (False, True))
+        if form == "plain":
+            return x_in
+        if form == "rc":
+            return rc_in()
+        return rc_in() if flip else x_in
 
     def item_of(self, v):
         for t in tags_of(v):
@@ -612,19 +641,35 @@ class CensorOracles(ActiveItemOracles):
             sd = dir_of(args[1])
             b = args[2].val if isinstance(args[2], Int) and args[2].is_conc() else None
             return mkbool(self.state(sd, b) != "none")
+        if path.startswith("Exts::") and name == "has_ext" and "other-exts" in tags_of(recv(it, args[0])):
+            return mkbool(False)
         if fn.get("trait") == "Kmer" and name in ("extend", "extend_left", "extend_right"):
             sd = dir_of(args[2]) if name == "extend" else (LEFT if name == "extend_left" else RIGHT)
             b = args[1].val if isinstance(args[1], Int) and args[1].is_conc() else None
             return Opaque("K", {"ext", "plain", "item-%s-%s" % (sd, b)})
         if fn.get("trait") == "Kmer" and name in ("min_rc", "min_rc_flip"):
             k = recv(it, args[0])
-            r = Opaque("K", (tags_of(k) - {"plain"}) | {"canon"})
-            self.observe("canonicalise", self.item_of(k))
+            r = Opaque("K", (tags_of(k) - {"plain", "rcform"}) | {"canon"})
+            item = self.item_of(k)
+            self.observe("canonicalise", item)
             if name == "min_rc_flip":
-                return Tup([r, mkbool(self.choose("flip", (False, True)))])
+                fl = self.choose("canonical-form-of-%s-%s-is-its-rc" % item, (False, True)) if item == self.active else False
+                if "rcform" in tags_of(k):
+                    fl = not fl
+                return Tup([r, mkbool(fl)])
             return r
+        if fn.get("trait") == "Mer" and name == "rc" and args and isinstance(recv(it, args[0]), Opaque) and self.item_of(recv(it, args[0])) is not None:
+            k = recv(it, args[0])
+            t = set(tags_of(k))
+            if "canon" in t:
+                raise Undecided("reverse complement of a canonicalised neighbour")
+            if "rcform" in t:
+                t.discard("rcform")
+            else:
+                t.add("rcform")
+            return Opaque("K", t)
         if name in ("binary_search_by_key", "binary_search", "binary_search_by", "contains"):
-            # which table? the slice of (K,(Exts,D)) (valid) or the slice of K (all)
+            # which table? the slice of (K,(Exts,D)) (valid) or the slice of K (all); possibly a sub-range of it
             tab = recv(it, args[0])
             which = "valid" if "valid-table" in tags_of(tab) else ("all" if "all-table" in tags_of(tab) else None)
             key = recv(it, args[1])
@@ -633,20 +678,73 @@ class CensorOracles(ActiveItemOracles):
                 raise Undecided("search in an unknown table / for an unknown key")
             self.observe("search", (which, item, "canon" in tags_of(key)))
             st = self.state(*item)
-            found = (st == "ext-valid") if which == "valid" else (st in ("ext-valid", "ext-censored"))
+            found = self.present(which, item, self.form_of(key))
+            if found and which == "valid":
+                lo, hi = tab.info.get("range", (0, self.TABLE_LEN)) if isinstance(tab, Opaque) else (0, self.TABLE_LEN)
+                pos = self.pos_of(item)
+                found = lo <= pos < hi
             if name == "contains":
                 return mkbool(found)
             return Adt(RESULT, 0 if found else 1, [Int(64, False, val=0)])
+        # order of the neighbour k-mer relative to the k-mer being pruned (the valid table is sorted)
+        if name in ("lt", "le", "gt", "ge", "cmp", "partial_cmp") and len(args) == 2 and fn.get("trait", "").split("::")[-1].split("<")[0] in ("PartialOrd", "Ord"):
+            a, b = recv(it, args[0]), recv(it, args[1])
+            ia, ib = self.item_of(a) if isinstance(a, Opaque) else None, self.item_of(b) if isinstance(b, Opaque) else None
+            cur_a, cur_b = isinstance(a, Opaque) and "cur-kmer" in tags_of(a), isinstance(b, Opaque) and "cur-kmer" in tags_of(b)
+            if (ia is not None and cur_b) or (ib is not None and cur_a):
+                item = ia if ia is not None else ib
+                p = self.pos_of(item)
+                c = (p > self.CUR) - (p < self.CUR)       # neighbour ? current
+                if ib is not None:
+                    c = -c
+                if name == "cmp":
+                    return Adt("std::cmp::Ordering", c + 1, [])
+                if name == "partial_cmp":
+                    return some(Adt("std::cmp::Ordering", c + 1, []))
+                return mkbool({"lt": c < 0, "le": c <= 0, "gt": c > 0, "ge": c >= 0}[name])
         return NotImplemented
+
+    TABLE_LEN = 3
+    CUR = 1
+
+    def pos_of(self, item):
+        """position of the neighbour k-mer in the sorted order relative to the current row (index CUR): the current row itself, or
+        somewhere before / after it (oracle)"""
+        st = self.state(*item)
+        if st == "ext-self":
+            return self.CUR
+        if item != self.active:
+            return 2          # background neighbours: one fixed position (only the enumerated item's position is varied)
+        return 0 if self.choose("neighbour-%s-%s-sorts" % item, ("before", "after")) == "before" else 2
 
     def opaque_index(self, it, v, idx, base):
         if "valid-table" in tags_of(v):
-            return self.row_ref
+            if isinstance(idx, Int) and idx.is_conc():
+                if idx.val == self.CUR:
+                    return self.row_ref
+                return Ref(Cell(Tup([Opaque("K", {"kmer", "plain", "other-row"}), Tup([Opaque(EXTS, {"other-exts"}), Opaque("D", {"data"})])]), "row%d" % idx.val))
+            if isinstance(idx, Adt) and idx.name.split("::")[-1] in ("Range", "RangeTo", "RangeFrom", "RangeFull"):
+                nm = idx.name.split("::")[-1]
+                lo, hi = 0, self.TABLE_LEN
+                f = idx.fields
+                try:
+                    if nm == "Range":
+                        lo, hi = f[0].val, f[1].val
+                    elif nm == "RangeTo":
+                        hi = f[0].val
+                    elif nm == "RangeFrom":
+                        lo = f[0].val
+                except AttributeError:
+                    return None
+                if lo is None or hi is None:
+                    return None
+                return Ref(Cell(Opaque(v.ty, set(tags_of(v)), {"range": (lo, hi)}), "sub-table"))
         return None
 
     def opaque_len(self, it, v):
         if "valid-table" in tags_of(v):
-            return Int(64, False, val=1)
+            lo, hi = v.info.get("range", (0, self.TABLE_LEN))
+            return Int(64, False, val=hi - lo)
         return None
 
 
@@ -663,12 +761,12 @@ def censor_tables(F, rep, rule="C03.5"):
         for stranded in (False, True):
             for active in items:
                 for background in ("none", "ext-valid"):
-                    def mk(script, active=active, background=background):
-                        return CensorOracles(script, active, background, sharded)
+                    def mk(script, active=active, background=background, stranded=stranded):
+                        return CensorOracles(script, active, background, sharded, stranded)
 
                     def run(h, stranded=stranded):
                         it = Interp(F, False, h)
-                        row = Tup([Opaque("K", {"kmer", "plain"}), Tup([Opaque(EXTS, {"in-exts"}), Opaque("D", {"data"})])])
+                        row = Tup([Opaque("K", {"kmer", "plain", "cur-kmer"}), Tup([Opaque(EXTS, {"in-exts"}), Opaque("D", {"data"})])])
                         h.row_cell = Cell(row, "row")
                         h.row_ref = Ref(h.row_cell)
                         table = Ref(Cell(Opaque("[(K,(Exts,D))]", {"valid-table"}), "valid_kmers"))
@@ -688,18 +786,16 @@ def censor_tables(F, rep, rule="C03.5"):
 
                         def keep(st):
                             if sharded:
-                                return st in ("ext-valid", "ext-elsewhere")
-                            return st == "ext-valid"
+                                return st in ("ext-valid", "ext-elsewhere", "ext-self")
+                            return st in ("ext-valid", "ext-self")
                         kept = [i_ for i_ in items if keep(a.get("item") if i_ == active else background)]
                         want = exts_byte(kept)
                         if not (isinstance(ev, Int) and ev.is_conc() and ev.val == want):
                             problems.append(("resulting extensions %s; required %s (an extension is removed exactly when its target k-mer is %s)" % (
                                 bin(ev.val) if isinstance(ev, Int) and ev.is_conc() else ev, bin(want),
                                 "known to this shard but not valid" if sharded else "not a valid k-mer"), row, False))
-                        for (which, item, canon) in h.obs.get("search", []):
-                            if canon != (not stranded):
-                                problems.append(("the %s table is searched with the %s form of the neighbour in %s mode" % (
-                                    which, "canonical" if canon else "plain", "stranded" if stranded else "unstranded"), row, False))
+                        # (no side condition on the form of the search key: whether plain, reverse-complemented or canonical keys are looked
+                        #  up is judged by the result — the tables hold canonical k-mers when unstranded, k-mers as observed when stranded)
         hard = [p for p in problems if not p[2]]
         if hard:
             rep.violated(rule, fname, "%s: %s  [row %s]" % (fname, hard[0][0], hard[0][1]), site=F.site(body, body["line"]),
@@ -707,8 +803,9 @@ def censor_tables(F, rep, rule="C03.5"):
         elif problems:
             rep.inconclusive(rule, fname, "%s: %s" % (fname, problems[0][0]))
         else:
-            rep.holds(rule, fname, "%s: all %d rows agree with B.4 (8 items × 4 states × 2 backgrounds × stranded/unstranded), searches use the "
-                      "canonical neighbour exactly when unstranded" % (fname, rows), sample={"rows": rows})
+            rep.holds(rule, fname, "%s: all %d rows agree with B.4 (8 items × 5 states × 2 backgrounds × stranded/unstranded × which strand is canonical × "
+                      "fate of the reverse complement when stranded): an extension is kept exactly when its target is valid%s" % (
+                          fname, rows, " or unknown to this shard" if sharded else ""), sample={"rows": rows})
 
 
 # =========================================================================== best path (C03.7) and path spelling (C03.8)
@@ -1452,10 +1549,13 @@ def beam_expand_table(F, rep, rule="C03.7"):
     rows = 0
     for prefix in ([0], [0, 1], [2, 0, 1]):
         last = prefix[-1]
-        for targets in ([], [5], [prefix[0]], [last], [5, prefix[0]], [prefix[0], 6, 7]):
+        for targets, ends in [(t_, {5}) for t_ in ([], [5], [prefix[0]], [last], [5, prefix[0]], [prefix[0], 6, 7])] + \
+                ([([prefix[0]], {5, prefix[0]}), ([5, prefix[0]], {5, prefix[0]})] if prefix[0] != last else []):
             rows += 1
             rep.evaluations += 1
-            h = H([(t, LEFT) for t in targets], ends={5})
+            # `ends`: nodes without onward edges on the far side (a node already on the path may be one of them: a tip reached again
+            # through a loop)
+            h = H([(t, LEFT) for t in targets], ends=ends)
             h.last = last
             it = Interp(F, False, h)
             g = graph_value(F, False)
